@@ -22,7 +22,7 @@ RULE = (
     "earlier and, at the end, all input objects (arrays, sparse buffers, lists, dicts, masks, eigenvectors) are re-compared with "
     "byte snapshots; all handed-out buffers are made read-only so an in-place write raises at the faulting line. thorough adds "
     "exhaustive ordered pairs (x then y) over the whole universe of small problems. Modes: dense, sparse, exact sympy, full / "
-    "selective diagonalisation, 2-3 parameters, non-Hermitian, implicit (direct solver). Non-trivial: history with >= 5 requests "
+    "selective diagonalisation, 2-3 parameters, non-Hermitian, implicit (direct solver), `taylor` (one sympy Matrix in two symbols with monomials of unequal powers x**2*y, x*y**2, orders up to total 3: every term is a Taylor coefficient reached through cached lower derivatives). Non-trivial: history with >= 5 requests "
     "touching >= 2 output series with at least one intermediate-term deletion observed; distinct = (structural signature, history kind)"
 )
 ASSUMPTIONS = [
@@ -73,6 +73,10 @@ def plan(tier, seed):
                 break
         if len(specs) >= n:
             break
+    # symbolic Taylor expansion of one sympy Matrix in two symbols with monomials of unequal powers (x**2*y, x*y**2):
+    # its own random stream, inserted at regular positions so that the rest of the plan is unchanged
+    rng_t = rng_for(10, seed, 7)
+    specs_t = [dict(kind="taylor", case=int(rng_t.integers(0, 2**31))) for _ in range(max(1, n // 20))]
     if n_pairs:
         # exhaustive pairs and random histories interleaved: on a loaded machine the time budget then cuts both alike
         pairs = [sp for sp in specs if sp.get("kind") == "pairs"]
@@ -81,6 +85,9 @@ def plan(tier, seed):
         while pairs or others:  # interleaved 1 : 2, so that any cut-off leaves both kinds covered
             specs += pairs[:1] + others[:2]
             pairs, others = pairs[1:], others[2:]
+    step = max(1, len(specs) // len(specs_t))
+    for k, sp in enumerate(specs_t):
+        specs.insert(min(len(specs), k * (step + 1) + 3), sp)
     return specs
 
 
@@ -124,7 +131,15 @@ def same(a, b, counters):
     if isinstance(a, str) or isinstance(b, str):
         return isinstance(a, str) and isinstance(b, str) and a == b
     if isinstance(a, tuple) or isinstance(b, tuple):
-        return a == b
+        if a == b:
+            return True
+        if isinstance(a, tuple) and isinstance(b, tuple) and CMP.get("sym_equal"):
+            # Taylor-coefficient histories: the same polynomial may be built in another order of differentiation
+            A, B = sympy.sympify(a[1]), sympy.sympify(b[1])
+            if A.shape == B.shape and sympy.expand(A - B).is_zero_matrix:
+                counters["symbolic_equal_not_identical"] += 1
+                return True
+        return False
     if a.shape != b.shape:
         return False
     if np.array_equal(a, b):
@@ -149,6 +164,8 @@ class Mode:
     def __init__(self, spec):
         if spec["kind"] == "implicit":
             self._implicit(spec)
+        elif spec["kind"] == "taylor":
+            self._taylor(spec)
         else:
             self.p = matprob.build(spec)
             self.nb, self.n_par = len(self.p.sizes), self.p.n_par
@@ -157,6 +174,44 @@ class Mode:
             self.mk = lambda: matprob.call_library(self.p)
             self.sig = matprob.signature(spec)
             self.sample = matprob.sample_of(self.p)
+
+    def _taylor(self, spec):
+        """One sympy Matrix H(x, y) whose perturbation contains monomials with unequal powers of the two symbols: the
+        library obtains every term as a Taylor coefficient (derivatives along either axis, cached lower derivatives), so
+        the value of a term must not depend on which lower terms were requested before."""
+        from pymablock import block_diagonalize
+
+        rng = rng_for(10, spec["case"], 3)
+        x, y = sympy.symbols("x y", real=True)
+        sizes = [[1, 1], [2, 1], [1, 2]][int(rng.integers(3))]
+        N = sum(sizes)
+        R = sympy.Rational
+        e0 = [R(0), R(1, 3), R(2), R(11, 4)]
+        H = sympy.zeros(N, N)
+        idx = [0] * sizes[0] + [1] * sizes[1]
+        lev = {0: 0, 1: 2}
+        for k, b in enumerate(idx):
+            H[k, k] = e0[lev[b]]
+            lev[b] += 1
+        monos = [x, y, x * y, x**2 * y, x * y**2, x**2, y**2, x**3, x**2 * y, x * y**2]
+        need = True
+        for i in range(N):
+            for j in range(i, N):
+                picks = rng.choice(len(monos), size=int(rng.integers(1, 4)), replace=False)
+                e = sum(int(rng.integers(1, 8)) * (-1) ** int(rng.integers(2)) * monos[int(q)] for q in picks)
+                if need and (i, j) == (0, N - 1):
+                    e = e + int(rng.integers(2, 6)) * [x**2 * y, x * y**2][int(rng.integers(2))]
+                H[i, j] = H[i, j] + e
+                if i != j:
+                    H[j, i] = H[j, i] + e
+        kw = dict(subspace_indices=idx, symbols=[x, y] if rng.random() < 0.7 else [y, x])
+        self.tol = 0.0
+        self.inputs = [H]
+        self.nb, self.n_par = 2, 2
+        self.orders = [(a, b) for a in range(4) for b in range(4) if a + b <= 3]
+        self.mk = lambda: block_diagonalize(H, **kw)
+        self.sig = ["taylor", sizes, str(H[0, N - 1])]
+        self.sample = dict(mode="taylor", H=str(H), **{k: str(v) for k, v in kw.items()})
 
     def _implicit(self, spec):
         from pymablock import block_diagonalize
@@ -247,6 +302,7 @@ def run_case(spec):
     counters = Counter()
     mode = Mode(spec)
     CMP["tol"] = float(getattr(mode, "tol", 0.0))
+    CMP["sym_equal"] = spec["kind"] == "taylor"
     counters["implicit_kpm_histories"] += int(bool(CMP["tol"]))
     rng = rng_for(10, spec.get("hist", spec.get("case", 0) if isinstance(spec.get("case"), int) else 0), 2)
     universe = [(s, i, j, n) for s in range(3) for i in range(mode.nb) for j in range(mode.nb) for n in mode.orders]
@@ -313,9 +369,9 @@ def run_case(spec):
             counters["ordered_pairs"] += 1
         n_req, series_touched = 2, 2
     else:
-        ncomp = 1 if kind in ("history", "implicit") else int(rng.integers(2, 4))
+        ncomp = 1 if kind in ("history", "implicit") else int(rng.integers(1, 3)) if kind == "taylor" else int(rng.integers(2, 4))
         comps = [mode.mk() for _ in range(ncomp)]
-        length = int(rng.integers(5, 31 if kind != "implicit" else 12))
+        length = int(rng.integers(5, 31 if kind not in ("implicit", "taylor") else 12))
         hist = _gen_history(rng, mode, length)
         done = []
         for req in hist:
@@ -344,7 +400,7 @@ def run_case(spec):
 def finalize(c, tier, evaluations, distinct):
     reasons = []
     need = dict(values_compared=3000, fresh_computations=3000, deletions=1000, histories_history=50, histories_interleaved=20,
-                histories_implicit=20, handed_out_rechecks=10000, kept_containers_rechecked=1000, input_snapshots_verified=100)
+                histories_implicit=20, histories_taylor=10, handed_out_rechecks=10000, kept_containers_rechecked=1000, input_snapshots_verified=100)
     if tier == "thorough":
         need["ordered_pairs"] = 5000
     for k, v in need.items():
